@@ -3,6 +3,9 @@ package main
 import (
 	"bytes"
 	"fmt"
+	"io"
+	"strconv"
+	"strings"
 
 	"github.com/keybase/saltpack"
 )
@@ -34,4 +37,184 @@ func armoredFormFailure(key string, input []byte, typ saltpack.MessageType, binE
 		return &Failure{Kind: "oracle", Key: key + "-armored-form-disagrees", Desc: fmt.Sprintf("binary form returns %d bytes, armored form of the same bytes %d", len(binOut), len(out))}
 	}
 	return nil
+}
+
+// frameVariants: the armored text with its frame damaged in one place — every variant must be refused by
+// the armored entry points of the message's mode (the footer has to mirror the header, and both have to
+// name the type the entry point serves)
+func frameVariants(r *SplitMix, txt, brand string, mode string) (out []string, why []string) {
+	p1 := strings.Index(txt, ".")
+	if p1 < 0 {
+		return
+	}
+	p2 := p1 + 1 + strings.Index(txt[p1+1:], ".")
+	if p2 <= p1 {
+		return
+	}
+	p3 := p2 + 1 + strings.Index(txt[p2+1:], ".")
+	if p3 <= p2 {
+		return
+	}
+	hdr, body, ftr, rest := txt[:p1], txt[p1:p2+1], txt[p2+1:p3], txt[p3:]
+	add := func(h, f, w string) { out = append(out, h+body+f+rest); why = append(why, w) }
+	add(hdr, strings.Replace(ftr, "END", "DND", 1), "footer marker with one bit flipped")
+	add(strings.Replace(hdr, "BEGIN", "BEGIM", 1), ftr, "header marker with one bit flipped")
+	if brand != "" {
+		add(hdr, strings.Replace(ftr, brand, editBrand(r, brand), 1), "footer brand one character edit away from the header's")
+		add(strings.Replace(hdr, brand, editBrand(r, brand), 1), ftr, "header brand one character edit away from the footer's")
+	} else {
+		add(hdr, strings.Replace(ftr, "END ", "END KB ", 1), "footer with a brand the header does not have")
+	}
+	own := map[string]string{"enc": "ENCRYPTED MESSAGE", "sc": "ENCRYPTED MESSAGE", "att": "SIGNED MESSAGE", "det": "DETACHED SIGNATURE"}[mode]
+	for _, other := range []string{"ENCRYPTED MESSAGE", "SIGNED MESSAGE", "DETACHED SIGNATURE"} {
+		if other == own {
+			continue
+		}
+		add(hdr, strings.Replace(ftr, own, other, 1), "footer naming another type ("+other+")")
+		add(strings.Replace(hdr, own, other, 1), ftr, "header naming another type ("+other+")")
+		add(strings.Replace(hdr, own, other, 1), strings.Replace(ftr, own, other, 1), "a consistent frame of another type ("+other+")")
+	}
+	out = append(out, hdr+body)
+	why = append(why, "footer sentence missing")
+	return
+}
+
+func init() {
+	// a genuine message of one mode, armored; the genuine text must be accepted and every frame variant
+	// refused by every armored entry point of that mode
+	evaluators["armored_frames"] = evaluator{run: func(h *H, c Case) (fs []Failure) {
+		wire, msg, mode := unhx(c.A["wire"]), unhx(c.A["msg"]), c.A["mode"]
+		brand := c.A["brand"]
+		ring := makeRing(c.A["keys"], "all", c.A["signers"])
+		sring := sigRing{known: unblist(c.A["signers"])}
+		at := map[string]saltpack.MessageType{"enc": saltpack.MessageTypeEncryption, "sc": saltpack.MessageTypeEncryption,
+			"att": saltpack.MessageTypeAttachedSignature, "det": saltpack.MessageTypeDetachedSignature}[mode]
+		vd := saltpack.CheckKnownMajorVersion
+		type ep struct {
+			name string
+			f    func(t string) error
+		}
+		all := func(r io.Reader, e error) error {
+			if e != nil {
+				return e
+			}
+			_, e = io.ReadAll(r)
+			return e
+		}
+		var eps []ep
+		switch mode {
+		case "enc":
+			eps = []ep{{"Dearmor62DecryptOpen", func(t string) error { _, _, _, e := saltpack.Dearmor62DecryptOpen(vd, t, ring); return e }},
+				{"NewDearmor62DecryptStream", func(t string) error {
+					_, r, _, e := saltpack.NewDearmor62DecryptStream(vd, strings.NewReader(t), ring)
+					return all(r, e)
+				}}}
+		case "sc":
+			eps = []ep{{"Dearmor62SigncryptOpen", func(t string) error { _, _, _, e := saltpack.Dearmor62SigncryptOpen(t, ring, nil); return e }},
+				{"NewDearmor62SigncryptOpenStream", func(t string) error {
+					_, r, _, e := saltpack.NewDearmor62SigncryptOpenStream(strings.NewReader(t), ring, nil)
+					return all(r, e)
+				}}}
+		case "att":
+			eps = []ep{{"Dearmor62Verify", func(t string) error { _, _, _, e := saltpack.Dearmor62Verify(vd, t, sring); return e }},
+				{"NewDearmor62VerifyStream", func(t string) error {
+					_, r, _, e := saltpack.NewDearmor62VerifyStream(vd, strings.NewReader(t), sring)
+					return all(r, e)
+				}}}
+		case "det":
+			eps = []ep{{"Dearmor62VerifyDetached", func(t string) error { _, _, e := saltpack.Dearmor62VerifyDetached(vd, msg, t, sring); return e }},
+				{"Dearmor62VerifyDetachedReader", func(t string) error {
+					_, _, e := saltpack.Dearmor62VerifyDetachedReader(vd, iotestOneByte(msg), t, sring)
+					return e
+				}}}
+		}
+		txt, err := saltpack.Armor62Seal(wire, at, brand)
+		if err != nil {
+			return append(fs, Failure{Kind: "oracle", Key: "armored-frames-seal", Desc: err.Error()})
+		}
+		vars, why := frameVariants(h.rng, txt, brand, mode)
+		for _, e := range eps {
+			var ge error
+			if pe := guard(func() error { ge = e.f(txt); return nil }); pe != nil {
+				ge = pe
+			}
+			if ge != nil {
+				fs = append(fs, Failure{Kind: "oracle", Key: "armored-genuine-rejected", Desc: fmt.Sprintf("%s rejects the genuine armored %s message: %v", e.name, mode, ge)})
+				continue
+			}
+			for i, v := range vars {
+				var ve error
+				if pe := guard(func() error { ve = e.f(v); return nil }); pe != nil {
+					ve = pe
+				}
+				if ve == nil {
+					fs = append(fs, Failure{Kind: "oracle", Key: "armored-entry-accepts-bad-frame", Desc: fmt.Sprintf("%s accepts a %s message whose armor has a %s", e.name, mode, why[i])})
+					break
+				}
+				if strings.HasPrefix(ve.Error(), "PANIC") {
+					fs = append(fs, Failure{Kind: "oracle", Key: "armored-entry-panic", Desc: clip(ve.Error(), 200)})
+					break
+				}
+			}
+		}
+		return
+	}}
+}
+
+// genArmoredFrames: one armored_frames case per producer of the given modes
+func genArmoredFrames(h *H, modes map[string]bool, rounds int) {
+	for i := 0; i < rounds; i++ {
+		for _, p := range h.producers() {
+			if !modes[p.name] {
+				continue
+			}
+			brand := []string{"", "KB", randBrand(h.rng, 1+h.rng.Intn(12))}[h.rng.Intn(3)]
+			h.tag("armored-frames:" + p.name)
+			h.Run(Case{Op: "armored_frames", A: map[string]string{"wire": hx(p.wire), "msg": hx(p.msg), "mode": p.name, "brand": brand,
+				"keys": keysOf(p), "signers": signersOf(p)}})
+		}
+	}
+}
+
+func init() {
+	// very many recipients (the msgpack array16/array32 boundary of the recipient list and of the
+	// per-packet authenticator list): oracle only — seal, then the one recipient whose key we hold opens
+	evaluators["seal_many"] = evaluator{run: func(h *H, c Case) (fs []Failure) {
+		n, _ := strconv.Atoi(c.A["n"])
+		v := parseVersion(c.A["v"])
+		rsk := unhx(c.A["rsk"])
+		pos := n / 2
+		rcv := make([]saltpack.BoxPublicKey, n)
+		seed := unhx(c.A["seed"])
+		for i := range rcv {
+			if i == pos {
+				rcv[i] = boxPubFromBytes(boxPk(rsk), false)
+				continue
+			}
+			// distinct filler public keys (never opened): 32 bytes derived from the index
+			k := make([]byte, 32)
+			copy(k, seed)
+			k[28], k[29], k[30], k[31] = byte(i>>24), byte(i>>16), byte(i>>8), byte(i)
+			rcv[i] = boxPubFromBytes(k, false)
+		}
+		msg := []byte("to very many recipients")
+		var out []byte
+		var err error
+		if pe := guard(func() error {
+			out, err = saltpack.Seal(v, msg, boxSecretFromBytes(unhx(c.A["sender"])), rcv)
+			return nil
+		}); pe != nil {
+			err = pe
+		}
+		if err != nil {
+			return append(fs, Failure{Kind: "oracle", Key: "seal-many-recipients-fails", Desc: fmt.Sprintf("Seal to %d distinct recipients (version %s): %v", n, c.A["v"], err)})
+		}
+		ring := &hRing{allSenders: true}
+		ring.keys = append(ring.keys, boxSecretFromBytes(rsk))
+		_, pt, e := saltpack.Open(saltpack.CheckKnownMajorVersion, out, ring)
+		if e != nil || !bytes.Equal(pt, msg) {
+			fs = append(fs, Failure{Kind: "oracle", Key: "seal-many-recipients-roundtrip", Desc: fmt.Sprintf("recipient %d of %d cannot open: %v", pos, n, e)})
+		}
+		return
+	}}
 }
